@@ -11,10 +11,11 @@
 -/
 import Scico.Proofs.LinSolveADMM
 import Scico.Proofs.LinSolveADMM2
+import Scico.Proofs.LinSolveADMM3
 import Mathlib.Tactic.NormNum
 
 namespace Scico.Props.C10
-open Scico Scico.LinSolve RCLike
+open Scico Scico.LinSolve RCLike Matrix
 
 section Argmin
 variable {𝕜 V Y : Type} [RCLike 𝕜] [NormedAddCommGroup V] [InnerProductSpace 𝕜 V]
@@ -176,6 +177,25 @@ theorem C10_g0_scaling_counterexample : ¬ C10_g0_scaling_stmt := by
 
 end G0Witness
 
+section EndToEnd
+variable {𝕜 V U Y : Type} [RCLike 𝕜] [NormedAddCommGroup V] [InnerProductSpace 𝕜 V] [AddCommGroup U] [Module 𝕜 U]
+  [AddCommGroup Y] [Module 𝕜 Y]
+
+/-- **`LinearSubproblemSolver` end to end** (`scico.solver.cg`, no preconditioner): assembly (`C10_assembly_linear`) composed with
+    the exit rule of `cg` (`C14_cg_rel_res_true`): for linear `A`, `W`, `C_i`, any scale, state and non-empty term list, the returned
+    `x` satisfies `‖rhs − lhs x‖ ≤ max(tol ‖rhs‖, atol)` for the *documented* `lhs`, `rhs`, unless `maxiter` bodies were used;
+    `info["rel_res"] = ‖rhs − lhs x‖ / ‖rhs‖`. -/
+theorem C10_linear_solver_end_to_end (f : Option (LSqL2 𝕜 V Y)) (terms : List (LTerm 𝕜 V U)) (hne : terms ≠ []) (x0 : V)
+    (tol atol : ℝ) (maxiter : Nat) :
+    ∃ lhs, linearLhs (f.map LSqL2.toSqL2) (terms.map LTerm.toTerm) = some lhs ∧
+      let rhs := linearRhs 0 (f.map LSqL2.toSqL2) (terms.map LTerm.toTerm)
+      let out := cg (rcOps 𝕜 V) lhs (fun v => v) rhs x0 tol atol maxiter
+      let res := rhsSpec (f.map LSqL2.toSqL2) (terms.map LTerm.toTerm) - lhsSpec (f.map LSqL2.toSqL2) (terms.map LTerm.toTerm) out.1
+      (0 ≤ max (tol * ‖rhs‖) atol → out.2.relRes = ‖res‖ / ‖rhs‖ ∧ (out.2.numIter = maxiter ∨ ‖res‖ ≤ max (tol * ‖rhs‖) atol)) :=
+  linearSolver_spec f terms hne x0 tol atol maxiter
+
+end EndToEnd
+
 section MatrixSub
 variable {K : Type} [Field K] [HasConj K] [HasIsZero K] {m n : Nat}
 
@@ -188,6 +208,36 @@ theorem C10_assembly_matrix (scale : K) (A : Mat K m n) (W : Vec K m) (terms : L
       (s.D.isDiag = true ↔ ∀ t ∈ terms, ∃ d, t.2 = .diag d) :=
   matrixSubATAD_spec scale A W terms hne
 
+/-- **`MatrixSubproblemSolver` end to end**: `C10_assembly_matrix` composed with `C14_woodbury_matrix` — whatever path the
+    factorisation solver takes, `solve` returns the solution of `(Aᴴ (2αW) A + Σ ρ_i C_iᴴ C_i) x = rhs`, given the factorisation
+    contract and, on the Woodbury path, a 1-D `D = Σ ρ_i |c_i|²` without zero entry. -/
+theorem C10_matrix_solver_end_to_end (hz : LawfulIsZero K) (scale : K) (A : Mat K m n) (W : Vec K m) (terms : List (K × COp K n))
+    (s : ATAD K m n) (hs : matrixSubATAD scale A W terms = some s)
+    (fsW : Vec K m → Vec K m) (fsD : Vec K n → Vec K n) (rhs : Vec K n)
+    (hfsW : ∀ d, s.D = .diag d → ∀ c, LinSolve.mulVec (gWoodbury s.A d s.W) (fsW c) = c)
+    (hfsD : ∀ c, LinSolve.mulVec (gDirect s.A s.D s.W) (fsD c) = c)
+    (hnz : ∀ d, s.D = .diag d → s.useWoodbury = true → ∀ k, d k ≠ 0) :
+    (Matrix.of (conjT A) * Matrix.diagonal (fun i => 2 * scale * W i) * Matrix.of A
+        + Matrix.of (fun i j => (terms.map fun t => t.1 * t.2.gramD.entry i j).sum)) *ᵥ (s.solve fsW fsD rhs) = rhs :=
+  matrixSub_solve_spec hz scale A W terms s hs fsW fsD rhs hfsW hfsD hnz
+
 end MatrixSub
+
+section NonVacuityEndToEnd
+/- the solver object of a 1×2 problem (`A = [1 1]`, `α = ½`, `W = 1`, one `Diagonal` `C = I`, `ρ = 1`) exists and takes the
+   Woodbury path; its factor-solve contract is met by `c ↦ c/3` (see the example in `Props/C14.lean`) -/
+local instance : HasConj ℚ := ⟨id⟩
+local instance : HasIsZero ℚ := ⟨fun x => decide (x = 0)⟩
+
+example : ∃ s : ATAD ℚ 1 2, matrixSubATAD (1 / 2 : ℚ) (fun _ _ => 1) (fun _ => 1) [(1, COp.diag fun _ => 1)] = some s ∧
+    s.D.isDiag = true ∧ ∀ i, s.W i = 1 := by
+  refine ⟨_, rfl, rfl, ?_⟩
+  intro i
+  simp [two]; norm_num
+
+-- a term list and a loss built from linear maps (V = U = Y = ℝ)
+example : ∃ (f : LSqL2 ℝ ℝ ℝ) (t : LTerm ℝ ℝ ℝ), [t] ≠ [] ∧ f.scale = 2 :=
+  ⟨⟨2, LinearMap.id, LinearMap.id, LinearMap.id, 1⟩, ⟨3, LinearMap.id, LinearMap.id, 1, 0⟩, by simp, rfl⟩
+end NonVacuityEndToEnd
 
 end Scico.Props.C10
